@@ -682,3 +682,49 @@ def relaxed_capacity_rule(chk, cid, prog, p, cfgname):
     if n < 2:
         raise AnalysisBroken('relaxed_capacity_rule(%s): %d relaxed-supernode demands found, expected 2' % (p, n))
     return n
+
+
+def reuse_keeps_stack_rule(chk, cid, prog, p, cfgname):
+    """Fact = SamePattern_SameRowPerm with a caller workspace re-enters ?LUMemInit while the factors of the previous call still occupy the head of
+    work[] (stack.used / stack.top1 say how much).  On that branch the allocator state must be carried over: ?SetupSpace, which starts an
+    empty stack (used = top1 = 0), may only run for a fresh factorization; otherwise the next expansion computes its moves from a stack that
+    claims to be empty and shifts nothing (or hands out memory the old factors still occupy).  CFG reachability from the false edge of
+    `fact != SamePattern_SameRowPerm` (resp. the true edge of `==`) up to the function exits."""
+    f = prog.func(p + 'LUMemInit')
+    if f is None:
+        raise AnalysisBroken('%sLUMemInit not found' % p)
+    chk.saw(unit=f.unit, func=f.unit + ':' + f.name)
+    cfg = prog.cfg(f)
+    start = []
+    for cn in cfg.nodes:
+        if cn.kind == 'cond' and cn.ast is not None:
+            c = strip(cn.ast)
+            if c.k == 'Binary' and c.a['op'] in ('!=', '==') and 'SamePattern_SameRowPerm' in canon(c, ids=False):
+                want = False if c.a['op'] == '!=' else True
+                start += [s for (s, lab) in cn.succ if lab is want]
+    if not start:
+        raise AnalysisBroken('%s: the test of fact against SamePattern_SameRowPerm was not found' % f.name)
+    seen = set()
+    st = list(start)
+    bad = None
+    while st:
+        q = st.pop()
+        if q in seen:
+            continue
+        seen.add(q)
+        cn = cfg.nodes[q]
+        if cn.ast is not None and cn.kind in ('stmt', 'cond', 'return'):
+            for x in cn.ast.walk():
+                if x.k == 'Call' and (callee_name(x) or '').endswith('SetupSpace'):
+                    bad = bad or (x, 'calls %s, which empties the workspace stack' % callee_name(x))
+                if x.k == 'Assign' and x.a['op'] == '=' and canon(x.c[0], ids=False).replace(' ', '') in ('Glu->stack.used', 'Glu->stack.top1') and const_value(x.c[1]) == 0:
+                    bad = bad or (x, 'resets %s' % canon(x.c[0], ids=False))
+        st.extend(s for (s, _) in cn.succ)
+    inst = '%s:reuse-branch-keeps-the-workspace-stack' % f.name
+    if bad is None:
+        chk.ok(cid, inst, sample='%d CFG nodes reachable on the reuse branch; none re-initialises the stack' % len(seen))
+    else:
+        chk.violate(cid, inst, loc(f, bad[0]), f.name,
+                    'on the Fact = SamePattern_SameRowPerm branch ?LUMemInit %s although the factors of the previous call still lie at the head of work[]: the next '
+                    'expansion moves nothing / hands their memory out again, and U, lsub, usub are overwritten with info = 0' % bad[1], cfgname=cfgname)
+    return 1
